@@ -99,7 +99,7 @@ def main():
 
 HOOK_COMMITS = ["abbf854"]
 CHECKS["C13"] = ("parties", "exploration",
-   "The PCZT roles run as parties that share nothing but serialized PCZTs: a coordinator dispatches its current (or a stale) copy to Signers (one per transparent key, Sapling, Orchard, Ironwood), Provers (Sapling, Orchard, Ironwood), two Updaters and a Redactor, and merges whatever replies the transport delivers with the Combiner; the transport drops, duplicates, reorders, delays, truncates and flips bits of messages, and somebody tries to finalise and extract at arbitrary moments. Transactions: transparent-only in the v5 and v6 formats (1-4 inputs with distinct keys, 1-3 outputs, drawn per run), a v5 transaction with a transparent input, a Sapling spend and an Orchard spend, and a v6 transaction with a transparent input and an Ironwood spend (real proofs, made once per process). Monitors: the txid implied by every copy any role returns, by every combination (also after a corrupted message was merged) and by every extracted transaction equals the Creator's; parse(serialize(p)) re-serialises identically and the default encoding is v1 exactly when the v1 conversion succeeds, after every role; honest copies always combine, in every sampled order / grouping / duplication to identical bytes, idempotently, keeping every updater entry and every contribution (shown by extraction after adding only what no copy carried); a PCZT for a different transaction is refused; extraction succeeds exactly when every required signature and proof has been delivered; no role panics on any message that parses.",
+   "The PCZT roles run as parties that share nothing but serialized PCZTs: a coordinator dispatches its current (or a stale, possibly pre-IO-Finaliser) copy to Signers (one per transparent key, Sapling, Orchard, Ironwood), Provers (Sapling, Orchard, Ironwood), two Updaters, a Redactor and a compacting Redactor, and merges whatever replies the transport delivers with the Combiner (after resolve_fields, the documented consumer step); the transport drops, duplicates, reorders, delays, truncates and flips bits of messages, a faulty party may return its copy with one field changed (any field, through the crate's public v2 serde type), copies from before the IO Finaliser may arrive late, and somebody tries to finalise and extract at arbitrary moments. Transactions: transparent-only in the v5 and v6 formats (1-4 inputs with distinct keys, 1-3 outputs, optional fallback lock time and a required height lock time on one input, drawn per run), a v5 transaction with a transparent input, a Sapling spend and an Orchard spend, and a v6 transaction with a transparent input and an Ironwood spend with a full 512-byte memo (real proofs, made once per process). Monitors: the txid implied by every copy any role returns, by every combination (also after a damaged message was merged) and by every extracted transaction equals the Creator's; a copy that by itself implies a different txid is refused by the Combiner; parse(serialize(p)) re-serialises identically and the default encoding is v1 exactly when the v1 conversion succeeds, after every role; honest copies (including pre-finalisation ones) always combine, in every sampled order / grouping / duplication to identical bytes, idempotently, keeping every updater entry and every contribution (shown by extraction after adding only what no copy carried); a PCZT for a different transaction is refused; extraction succeeds exactly when every required signature and proof has been delivered; no role panics on any message that parses.",
    "4.7", "The shielded pipelines have one fixed shape each; P2SH/multisig inputs and the ZIP 374 deferred-anchor flow are not driven; Prover parties answer every request with the contribution computed once over the base copy; a randomised (RedJubjub/RedPallas) signer signs once per run and retransmits afterwards, because two honest but different signatures for one spend are a legitimate Combiner conflict.",
    "deterministic simulation: role parties over a lossy / reordering / corrupting simulated transport vs. txid, encoding, combiner and extraction monitors")
 main()
